@@ -30,6 +30,9 @@ CUSTOM = {':--k': 'div > :nth-child(2)'}
 FILES = ('css_parser.py', 'css_match.py', 'util.py', 'css_types.py', '__init__.py')
 
 
+_fresh = __import__('itertools').count()
+
+
 def fragment_calls():
     import bs4
 
@@ -56,7 +59,13 @@ def fragment_calls():
         ('filter(:nth-of-type(1), [frag1, frag2])', lambda: ids(sv.filter(':nth-of-type(1)', [f1, f2]))),
         ('select(p:nth-child(2), doc2)', lambda: ids(sv.select('p:nth-child(2), :root:first-child', d2))),
         ('select_one(:has(> .x), frag1)', lambda: ids(sv.select_one(':root:has(> .x)', f1) or sv.match(':root:has(> .x)', f1))),
+        # names never seen before (misses of every process-wide string cache, which has been filled beyond its bound first)
+        ('select(p[Data-<fresh>], doc2)', lambda: ids(sv.select(f'P[Data-N{next(_fresh)}], p.x', d2))),
+        ('match(li[Title-<fresh>=V], li of frag1)', lambda: ids(sv.match(f'LI:not([Title-M{next(_fresh)}=V])', f1.li))),
     ]
+    from soupsieve import util as _util
+    for i in range(700):
+        _util.lower(f'Warm-{i}-{next(_fresh)}')
     return calls
 
 
@@ -206,11 +215,12 @@ def run(chk):
     calls = fragment_calls()
     cpairs = [(a, b) for a in calls for b in calls if a is not b]
     if quick:
-        cpairs = rng.sample(cpairs, 24)
+        cpairs = rng.sample(cpairs, 24) + [(calls[-2], calls[-1]), (calls[-1], calls[-2]), (calls[-1], calls[-1])]
     for (na, fa), (nb, fb) in cpairs:
         refa, refb = fa(), fb()
         _, _, n = interleave(fa, fb, [])
-        for k in sorted(rng.sample(range(1, n + 1), min(n, 40 if quick else n))):
+        every = '<fresh>' in na and '<fresh>' in nb        # cache-miss pairs: every suspension point
+        for k in sorted(rng.sample(range(1, n + 1), min(n, n if every or not quick else 40))):
             ra, rb, _ = interleave(fa, fb, [k])
             schedules += 1
             inside += 1
